@@ -152,6 +152,18 @@ class ZBag(Abstract):
                 raise Unsupported('bag pop(i)')
             self.remove_one(e)
             return wrap(e)
+        if attr == 'clear' and not args:
+            self.cnt, self.size, self.head = z3.K(self.esort, z3.IntVal(0)), z3.IntVal(0), None
+            return None
+        if attr == 'reverse' and not args:
+            self.head = None
+            return None
+        if attr == 'remove' and len(args) == 1:
+            t = to_term(args[0])
+            if it.run.branch(self.cnt[t] <= 0, where=f'bagremove@{node.lineno}'):
+                raise Raised(ValueError('list.remove(x): x not in list'), node)
+            self.remove_one(t)
+            return None
         raise Unsupported(f'bag method {attr}')
 
 
@@ -359,7 +371,52 @@ class MapBagEntry(Abstract):
             p.ln = z3.Store(p.ln, k, p.ln[k] - 1)
             self._wf(it)
             return wrap(e)
+        if attr in ('sort', 'reverse') and not args:
+            # a permutation of the list: the multiset view is unchanged (the key function is assumed total)
+            return None
+        if attr == 'clear' and not args:
+            p.cnt = z3.Store(p.cnt, k, z3.K(p.esort, z3.IntVal(0)))
+            p.ln = z3.Store(p.ln, k, z3.IntVal(0))
+            return None
+        if attr == 'remove' and len(args) == 1:
+            t = to_term(args[0])
+            if it.run.branch(p.cnt[k][t] <= 0, where=f'mbremove@{node.lineno}'):
+                raise Raised(ValueError('list.remove(x): x not in list'), node)
+            p.cnt = z3.Store(p.cnt, k, z3.Store(p.cnt[k], t, p.cnt[k][t] - 1))
+            p.ln = z3.Store(p.ln, k, p.ln[k] - 1)
+            self._wf(it)
+            return None
         raise Unsupported(f'list method {attr} on a dict-of-lists entry')
+
+    def sym_delitem(self, it, key, node):
+        """del entry[i] / del entry[a:b]: some elements leave the list (which ones is not tracked by the multiset view)."""
+        p, k = self.parent, self.k
+        old_cnt, old_ln = p.cnt[k], p.ln[k]
+        if isinstance(key, slice):
+            new_cnt = fresh(p.name + '.delslice', z3.ArraySort(p.esort, z3.IntSort()))
+            new_ln = fresh(p.name + '.dellen', z3.IntSort())
+            e = z3.Const('_e', p.esort)
+            it.run.fact(z3.ForAll([e], z3.And(new_cnt[e] >= 0, new_cnt[e] <= old_cnt[e])))
+            it.run.fact(z3.And(new_ln >= 0, new_ln <= old_ln))
+            it.run.fact(z3.Implies(new_ln == old_ln, new_cnt == old_cnt))
+            if key.step is None and key.stop is None and isinstance(key.start, int) and key.start >= 0:
+                it.run.fact(new_ln == z3.If(old_ln < key.start, old_ln, z3.IntVal(key.start)))
+            elif key.step is None and key.start is None and isinstance(key.stop, int) and key.stop >= 0:
+                it.run.fact(new_ln == z3.If(old_ln < key.stop, z3.IntVal(0), old_ln - key.stop))
+            p.cnt = z3.Store(p.cnt, k, new_cnt)
+            p.ln = z3.Store(p.ln, k, new_ln)
+            self._wf(it)
+            return
+        if isinstance(key, int) or (isinstance(key, SV) and key.kind == 'int'):
+            if it.run.branch(old_ln <= 0, where=f'mbdelidx@{node.lineno}'):
+                raise Raised(IndexError('list assignment index out of range'), node)
+            e = fresh(p.name + '.del', p.esort)
+            it.run.fact(old_cnt[e] > 0)
+            p.cnt = z3.Store(p.cnt, k, z3.Store(old_cnt, e, old_cnt[e] - 1))
+            p.ln = z3.Store(p.ln, k, old_ln - 1)
+            self._wf(it)
+            return
+        raise Unsupported('del with a symbolic slice on a dict-of-lists entry')
 
 
 class KeysView(Abstract):
@@ -403,6 +460,13 @@ class Opaque(Abstract):
     """Object known only through contracts of its methods (uninterpreted functions of its reference)."""
     def __init__(self, ref, kind):
         self.ref, self.kind = ref, kind
+
+    def sym_contains(self, it, x, node):
+        # `x in obj`: by the contract of the object's __contains__ (Unsupported when the unit's contract has none)
+        spec = getattr(it, 'spec', None)
+        if spec is None:
+            raise Unsupported(f'membership in opaque {self.kind}')
+        return spec.opaque_call(it, self, '__contains__', [x], {}, node)
 
 
 class CoreInterp(sym.Interp):
@@ -495,6 +559,12 @@ class CoreInterp(sym.Interp):
             for a in args[0]:
                 out.mem = z3.Store(out.mem, to_term(a), z3.BoolVal(True))
             return out
+        if f is isinstance and len(args) == 2 and isinstance(args[0], Opaque):
+            # the class of an object the view does not construct is not known here: the unit's contract must say (or the unit is outside the subset)
+            r = self.spec.call_hook(self, f, args, kwargs, node) if self.spec is not None else NotImplemented
+            if r is NotImplemented:
+                raise Unsupported('isinstance() of an object the contract view does not construct')
+            return r
         if f is isinstance and len(args) == 2 and isinstance(args[0], Abstract):
             if isinstance(args[0], ZBag):
                 return args[1] is list or (isinstance(args[1], tuple) and list in args[1])
